@@ -145,8 +145,24 @@ def run_cases(workdir, timeout=1200):
         rc, out, dt = run(["timeout", str(timeout), "coqc"] + COQ_FLAGS + [sh["file"]], cwd=workdir, timeout=timeout + 30)
         return sh, rc, out
 
-    with concurrent.futures.ThreadPoolExecutor(max_workers=16) as ex:
-        for sh, rc, out in ex.map(one, shards):
+    # memory-aware parallelism: a shard needs roughly 800 x its source size (measured: 6.7 MB -> 4.8 GB)
+    try:
+        biggest = max(os.path.getsize(os.path.join(workdir, sh["file"])) for sh in shards) if shards else 0
+        avail = 0
+        for line in open("/proc/meminfo"):
+            if line.startswith("MemAvailable:"):
+                avail = int(line.split()[1]) * 1024
+        per = max(1.5e9, 800.0 * biggest)
+        workers = int(max(2, min(16, (avail * 0.8) // per))) if avail else 8
+    except Exception:
+        workers = 8
+    results = []
+    with concurrent.futures.ThreadPoolExecutor(max_workers=workers) as ex:
+        results = list(ex.map(one, shards))
+    # a shard killed by the kernel (out of memory under load) is retried alone
+    results = [one(sh) if rc in (-9, 137) else (sh, rc, out) for sh, rc, out in results]
+    if True:
+        for sh, rc, out in results:
             if rc != 0:
                 errors.append("%s: coqc exit %d: %s" % (sh["file"], rc, out[-1500:]))
                 continue
